@@ -143,6 +143,17 @@ def gate_scan():
     return bad
 
 
+def write_coq_project():
+    """_CoqProject is derived from the files present (dependency order is coqdep's business)."""
+    files = sorted(str(p.relative_to(COQ)) for p in THEORIES.rglob("*.v"))
+    text = ("-Q theories RL4CO\n"
+            "-arg -w -arg -notation-overridden,-ambiguous-paths,-deprecated-hint-without-locality,-deprecated-instance-without-locality\n"
+            + "\n".join(files) + "\n")
+    p = COQ / "_CoqProject"
+    if not p.exists() or p.read_text() != text:
+        p.write_text(text)
+
+
 def coq_project_files():
     files = []
     for line in (COQ / "_CoqProject").read_text().splitlines():
@@ -158,6 +169,7 @@ def coq_build(log=None, timeout=3000):
     try:
         from translator import regen  # noqa: WPS433
         msgs = regen.regenerate_all()
+        write_coq_project()
         t0 = time.time()
         mk = COQ / "Makefile"
         if (not mk.exists()) or mk.stat().st_mtime < (COQ / "_CoqProject").stat().st_mtime:
@@ -292,6 +304,8 @@ class Ctx:
         self.level = "proof"
         self.broken = []          # names of theorems / correspondences that no longer check
         self.extra = {}
+        self._known_sigs = set()
+        self._viol_sigs = set()
 
     # -- bookkeeping
     def count(self, key, n=1):
@@ -329,6 +343,25 @@ class Ctx:
     def known_finding(self, what):
         print("KNOWN-FINDING: property=%s %s" % (self.pid, what), flush=True)
         self.known.append(what)
+
+    def failure(self, signature, replay_obj, tag=""):
+        """A concrete input on which the property fails on the implementation.  `signature` names
+        env/unit + mechanism (e.g. "mtsp/minmax: reward-changes-under-post-finish-padding"); if
+        known_findings.json lists it as open for this property it is reported once as KNOWN-FINDING,
+        otherwise as a VIOLATION with the replay."""
+        for e in load_known_findings(self.pid):
+            if e.get("signature") == signature:
+                if signature not in self._known_sigs:
+                    self._known_sigs.add(signature)
+                    self.known_finding("%s -- %s" % (signature, e.get("what", "")))
+                return False
+        if signature in self._viol_sigs:      # one VIOLATION line per distinct signature
+            return True
+        self._viol_sigs.add(signature)
+        replay_obj = dict(replay_obj)
+        replay_obj["signature"] = signature
+        self.violation(replay_obj, tag=tag)
+        return True
 
     def finish(self):
         ev = {
